@@ -1,4 +1,195 @@
-"""Slot translator: re-extract decision literals of /repo's sources into Generated/Slots.lean (filled in as properties are added)."""
-import os, sys
+"""Slot translator (DESIGN.md 2.4): re-extract decision literals of /repo's current sources with `ast`
+and emit lean/BycycleModel/Generated/Slots*.lean.  Property theorems depend on these files, so they are
+re-checked against what the code says now.  A slot whose AST shape is outside the recognised grammar is
+NOT a failure: the pinned value is kept and the slot is reported as 'not extractable'."""
+import ast, os, sys, json
+
+HERE = os.path.dirname(os.path.abspath(__file__))
+LEAN_GEN = os.path.join(os.path.dirname(HERE), 'lean', 'BycycleModel', 'Generated')
+REPO = os.environ.get('BYCYCLE_REPO', '/repo')
+
+CMP = {ast.Gt: '.gt', ast.GtE: '.ge', ast.Lt: '.lt', ast.LtE: '.le', ast.Eq: '.eq', ast.NotEq: '.ne'}
+FLIP = {'.gt': '.lt', '.ge': '.le', '.lt': '.gt', '.le': '.ge', '.eq': '.eq', '.ne': '.ne'}
+
+def _func(path, name):
+    tree = ast.parse(open(os.path.join(REPO, path)).read())
+    for n in ast.walk(tree):
+        if isinstance(n, ast.FunctionDef) and n.name == name:
+            return n
+    raise KeyError(name)
+
+def _defaults(fn):
+    a = fn.args
+    names = [x.arg for x in a.args]
+    d = {}
+    for nm, dv in zip(names[len(names) - len(a.defaults):], a.defaults):
+        d[nm] = ast.literal_eval(dv)
+    return d
+
+def _rat(x):
+    from fractions import Fraction
+    f = Fraction(str(x)) if not isinstance(x, int) else Fraction(x)
+    return '(%d : Rat)' % f.numerator if f.denominator == 1 else '((%d : Rat) / %d)' % (f.numerator, f.denominator)
+
+class Slots:
+    def __init__(self):
+        self.status = {}
+    def get(self, name, pinned, thunk):
+        try:
+            v = thunk()
+            if v is None:
+                raise ValueError('pattern not found')
+            self.status[name] = 'extracted' if v == pinned else 'extracted (differs from pinned %r): %r' % (pinned, v)
+            return v
+        except Exception as e:
+            self.status[name] = 'not extractable (%s: %s); pinned value kept' % (type(e).__name__, e)
+            return pinned
+
+# ------------------------------------------------------------------ detect (C06, C07)
+def detect_slots(S):
+    out = {}
+    FEATS = ['amp_fraction', 'amp_consistency', 'period_consistency', 'monotonicity']
+    def cyc_fn():
+        return _func('bycycle/burst/cycle.py', 'detect_bursts_cycles')
+    def cmp_of(feat):
+        def th():
+            for n in ast.walk(cyc_fn()):
+                if isinstance(n, ast.Compare) and len(n.ops) == 1:
+                    l, r = n.left, n.comparators[0]
+                    if isinstance(l, ast.Subscript) and isinstance(l.slice, ast.Constant) and l.slice.value == feat \
+                            and isinstance(r, ast.Name) and r.id == feat + '_threshold':
+                        return CMP[type(n.ops[0])]
+                    if isinstance(r, ast.Subscript) and isinstance(r.slice, ast.Constant) and r.slice.value == feat \
+                            and isinstance(l, ast.Name) and l.id == feat + '_threshold':
+                        return FLIP[CMP[type(n.ops[0])]]
+            return None
+        return th
+    for f in FEATS:
+        out['cmp_' + f] = S.get('cycles.cmp.' + f, '.gt', cmp_of(f))
+    def conj():
+        # is_burst = a & b & c & d  over the four comparison results
+        fn = cyc_fn()
+        targets = {}
+        for n in ast.walk(fn):
+            if isinstance(n, ast.Assign) and len(n.targets) == 1 and isinstance(n.targets[0], ast.Name) and isinstance(n.value, ast.Compare):
+                targets[n.targets[0].id] = n.value
+        for n in ast.walk(fn):
+            if isinstance(n, ast.Assign) and isinstance(n.value, ast.BinOp):
+                names, ops = [], set()
+                def flat(e):
+                    if isinstance(e, ast.BinOp):
+                        ops.add(type(e.op)); flat(e.left); flat(e.right)
+                    elif isinstance(e, ast.Name):
+                        names.append(e.id)
+                    else:
+                        raise ValueError('unexpected operand')
+                flat(n.value)
+                if set(names) == set(FEATS) and len(names) == 4:
+                    if ops == {ast.BitAnd}:
+                        return 'all'
+                    if ops == {ast.BitOr}:
+                        return 'any'
+                    raise ValueError('mixed operators')
+        return None
+    out['conj'] = S.get('cycles.conjunction', 'all', conj)
+    def forced():
+        idx = []
+        for n in ast.walk(cyc_fn()):
+            if isinstance(n, ast.Assign) and isinstance(n.targets[0], ast.Subscript) and isinstance(n.targets[0].value, ast.Name) \
+                    and n.targets[0].value.id == 'is_burst' and isinstance(n.value, ast.Constant) and n.value.value is False:
+                idx.append(ast.literal_eval(n.targets[0].slice))
+        return sorted(idx) if idx else None
+    out['forced'] = S.get('cycles.forced_false', [-1, 0], forced)
+    pinned_defaults = {'amp_fraction_threshold': 0.0, 'amp_consistency_threshold': 0.5, 'period_consistency_threshold': 0.5,
+                       'monotonicity_threshold': 0.8, 'min_n_cycles': 3}
+    out['cyc_defaults'] = S.get('cycles.defaults', pinned_defaults, lambda: _defaults(cyc_fn()))
+    def amp_fn():
+        return _func('bycycle/burst/amp.py', 'detect_bursts_amp')
+    def amp_cmp():
+        for n in ast.walk(amp_fn()):
+            if isinstance(n, ast.Compare) and len(n.ops) == 1:
+                l, r = n.left, n.comparators[0]
+                if isinstance(r, ast.Name) and r.id == 'burst_fraction_threshold' and isinstance(l, ast.Name):
+                    return CMP[type(n.ops[0])]
+                if isinstance(l, ast.Name) and l.id == 'burst_fraction_threshold' and isinstance(r, ast.Name):
+                    return FLIP[CMP[type(n.ops[0])]]
+        return None
+    out['amp_cmp'] = S.get('amp.cmp', '.ge', amp_cmp)
+    out['amp_defaults'] = S.get('amp.defaults', {'burst_fraction_threshold': 1, 'min_n_cycles': 3}, lambda: _defaults(amp_fn()))
+    def reconcile_default():
+        fn = _func('bycycle/features/features.py', 'compute_features')
+        for n in ast.walk(fn):
+            if isinstance(n, ast.Call) and isinstance(n.func, ast.Attribute) and n.func.attr in ('pop', 'get') and n.args \
+                    and isinstance(n.args[0], ast.Constant) and n.args[0].value == 'min_n_cycles' and len(n.args) == 2:
+                return ast.literal_eval(n.args[1])
+        return None
+    out['reconcile_default'] = S.get('features.min_n_cycles_default', 3, reconcile_default)
+    def bf_default():
+        return _defaults(_func('bycycle/features/burst.py', 'compute_burst_fraction'))['min_n_cycles']
+    out['burst_fraction_min_n_default'] = S.get('burst_fraction.min_n_cycles_default', 3, bf_default)
+    cd, ad = out['cyc_defaults'], out['amp_defaults']
+    lean = """/- GENERATED by harness/slots.py from /repo (bycycle/burst/cycle.py, bycycle/burst/amp.py,
+   bycycle/features/features.py, bycycle/features/burst.py). Do not edit. -/
+import BycycleModel.Basic
+namespace Bycycle.Slots
+
+def cyclesCmpAmpFraction : Cmp := %s
+def cyclesCmpAmpConsistency : Cmp := %s
+def cyclesCmpPeriodConsistency : Cmp := %s
+def cyclesCmpMonotonicity : Cmp := %s
+/-- `true`: the four criteria are combined with `&`; `false`: with `|`. -/
+def cyclesConjAll : Bool := %s
+/-- python indices forced to False (negative = from the end). -/
+def cyclesForcedFalse : List Int := %s
+def cyclesDefaultAmpFraction : Rat := %s
+def cyclesDefaultAmpConsistency : Rat := %s
+def cyclesDefaultPeriodConsistency : Rat := %s
+def cyclesDefaultMonotonicity : Rat := %s
+def cyclesDefaultMinN : Rat := %s
+def ampCmp : Cmp := %s
+def ampDefaultThreshold : Rat := %s
+def ampDefaultMinN : Rat := %s
+/-- default used when neither dictionary carries `min_n_cycles` (features.py). -/
+def reconcileDefaultMinN : Rat := %s
+def burstFractionDefaultMinN : Rat := %s
+
+end Bycycle.Slots
+""" % (out['cmp_amp_fraction'], out['cmp_amp_consistency'], out['cmp_period_consistency'], out['cmp_monotonicity'],
+       'true' if out['conj'] == 'all' else 'false',
+       '[' + ', '.join(str(i) for i in out['forced']) + ']',
+       _rat(cd['amp_fraction_threshold']), _rat(cd['amp_consistency_threshold']), _rat(cd['period_consistency_threshold']),
+       _rat(cd['monotonicity_threshold']), _rat(cd['min_n_cycles']),
+       out['amp_cmp'], _rat(ad['burst_fraction_threshold']), _rat(ad['min_n_cycles']),
+       _rat(out['reconcile_default']), _rat(out['burst_fraction_min_n_default']))
+    return 'SlotsDetect.lean', lean
+
+GROUPS = [detect_slots]
+
+def write_if_changed(path, text):
+    try:
+        if open(path).read() == text:
+            return False
+    except FileNotFoundError:
+        pass
+    os.makedirs(os.path.dirname(path), exist_ok=True)
+    with open(path, 'w') as f:
+        f.write(text)
+    return True
+
+def regenerate():
+    S = Slots()
+    changed = []
+    for g in GROUPS:
+        try:
+            fname, text = g(S)
+        except Exception as e:   # never let the translator itself break a check
+            S.status[g.__name__] = 'group failed (%s: %s); previous file kept' % (type(e).__name__, e)
+            continue
+        if write_if_changed(os.path.join(LEAN_GEN, fname), text):
+            changed.append(fname)
+    S.status['_files_rewritten'] = changed
+    return S.status
+
 if __name__ == '__main__':
-    sys.exit(0)
+    st = regenerate()
+    print(json.dumps(st, indent=1))
